@@ -189,3 +189,26 @@ pub fn run(sc: &J) -> J {
     out["log"] = json!(*log.lock().unwrap());
     out
 }
+
+
+/// `convert`: extraction of a list / map of u8 from a Value through the public TryFrom impls.
+pub fn convert(req: &J) -> J {
+    use std::collections::{BTreeMap, HashMap};
+    let v = value(&req["value"]);
+    fn err(e: Error) -> J {
+        match e {
+            Error::UnexpectedValueType(v, _) => json!({"err": {"variant": "UnexpectedValueType", "value": jvalue(&v)}}),
+            Error::NumericOverflow(_) => json!({"err": {"variant": "NumericOverflow"}}),
+            other => json!({"err": {"variant": "Other", "a": format!("{other:?}")}}),
+        }
+    }
+    match req["target"].as_str().unwrap_or("") {
+        "vec" => match Vec::<u8>::try_from(v) { Ok(x) => json!({"ok": x}), Err(e) => err(e) },
+        "btreemap" => match BTreeMap::<String, u8>::try_from(v) { Ok(x) => json!({"ok": x.into_iter().map(|(k, v)| json!([k, v])).collect::<Vec<_>>()}), Err(e) => err(e) },
+        "hashmap" => match HashMap::<String, u8>::try_from(v) {
+            Ok(x) => { let mut e: Vec<(String, u8)> = x.into_iter().collect(); e.sort(); json!({"ok": e.into_iter().map(|(k, v)| json!([k, v])).collect::<Vec<_>>()}) }
+            Err(e) => err(e),
+        },
+        other => panic!("unknown conversion target {other}"),
+    }
+}
